@@ -6,6 +6,7 @@ package main
 import (
 	"fmt"
 	"math/big"
+	"os"
 	"strings"
 
 	"github.com/llir/llvm/asm"
@@ -145,8 +146,18 @@ func c09Value(c *config, w uint64, x *big.Int, label string) {
 func runC09(c *config) {
 	o := c.out
 	r := newRng(c.seed, "c09")
+	if os.Getenv("VERIF_C09_CONC_CHILD") != "" {
+		// the child process of c09ConcurrentIsolated: the concurrent reads only
+		c09Concurrent(c, newRng(c.seed, "c09conc"), 150000*c.scale, 1000*c.scale)
+		return
+	}
 	if c.replay != "" {
 		rp := readReplay(c.replay)
+		if _, conc := rp.Detail["concurrent"]; conc {
+			fmt.Println("replay: the failure depends on the interleaving of goroutines; re-running the concurrent reads")
+			c09ConcurrentIsolated(c)
+			return
+		}
 		w := uint64(rp.Detail["width"].(float64))
 		if v, ok := rp.Detail["value"].(string); ok {
 			x, _ := new(big.Int).SetString(v, 10)
@@ -438,6 +449,8 @@ func runC09(c *config) {
 			o.Pass("through_parser")
 		}
 	}
+	// 9. concurrent reads (c09conc.go)
+	c09ConcurrentIsolated(c)
 	o.Sample(map[string]interface{}{"width": 16, "value": "65535", "printed": func() string { _, l := c09Ident(16, big.NewInt(65535)); return l }()})
 	o.Sample(map[string]interface{}{"width": 64, "literal": "s0xFFFFFFFFFFFFFFFF", "parsed": func() string { r, _ := c09Parse(64, "s0xFFFFFFFFFFFFFFFF"); return r }()})
 }
